@@ -85,7 +85,12 @@ class Snap(object):
             try:
                 import pint
                 if isinstance(v, pint.Quantity):
-                    return ('qty', self.take(v.magnitude), str(v.units))
+                    try:
+                        b = v.to_base_units()
+                        base = (self.take(b.magnitude), str(b.units))       # what the unit *means* in this registry
+                    except Exception:
+                        base = None
+                    return ('qty', self.take(v.magnitude), str(v.units), base)
                 if isinstance(v, pint.UnitRegistry):
                     return ('registry',)
             except ImportError:
